@@ -25,7 +25,7 @@
     prepend_preserves_wellnested append_preserves_wellnested rename_preserves_wellnested
     attr_preserves_wellnested cut_preserves_wellnested map_preserves_wellnested
     filter_preserves_wellnested
-    chain_wellnested_partial buffers_balanced before_after_any_stream
+    chain_wellnested buffers_balanced before_after_any_stream
     invert_wrap_breaks_nesting attr_wrap_emits_empty_wrapper
     select_only_id_ok filler_unnamed_unchanged filler_unnamed_id
     filler_empty_id filler_only_value_attrs_partial filler_no_text_change_partial
@@ -254,22 +254,20 @@ theorem filter_preserves_wellnested (f : List MEv → List MEv) (hf : FOk f) {s 
   `chain_wellnested`: for every well-nested stream `s` and every chain `ops` of Transformer
   operations in which, after an `invert()`, a `select()`/`end()` comes before any operation that
   deletes, replaces, wraps, copies or filters contiguous selections (the documented
-  precondition, shown necessary by `invert_wrap_breaks_nesting`), and whose literal event-stream
-  contents are balanced: `transform ops s = some out → WellNested out`.
+  precondition, shown necessary by `invert_wrap_breaks_nesting`), whose literal event-stream
+  contents are balanced and whose `filter(f)` filters keep balanced input balanced (`FOk f`):
+  `transform ops s = some out → WellNested out`.
 
   By induction over the chain with the invariant "well nested; `Good` — or, after `invert()`, free
   of ENTER/EXIT marks —; every buffer holds balanced content".  The chain may contain any number
   of selects, `end()`, `invert()`, `buffer()`, `copy`, `cut`, wrap, replace, before, after,
   prepend, append, rename, attr, empty, unwrap, remove, map, substitute, filter in any order, and
   may inject strings, event streams and the buffers filled by earlier `copy`/`cut` operations.
-
-  `_partial` for two reasons that are not hypotheses of the statement: `filter(f)` is covered for
-  filters that keep balanced input balanced (`FOk`; lemmas `filter_balance`, `filter_good` are
-  general, the model's `Op.filter` carries the two filters the correspondence drives), and the
-  model composes the links of a chain stage-wise — the driver answers `unmodelled` for the
-  chains in which the lazy interleaving of the real generators is observable.
+  (Trusted base, not a hypothesis: the model composes the links of a chain stage-wise; the
+  driver answers `unmodelled` for the chains in which the lazy interleaving of the real
+  generators is observable.)
 -/
-theorem chain_wellnested_partial (ops : List Op) (s : Stream) (hs : WellNested s)
+theorem chain_wellnested (ops : List Op) (s : Stream) (hs : WellNested s)
     (hadm : Admissible true ops) (hsel : chainSelOk ops [] (markAll s) = true)
     (out : Stream) (h : transform ops s = some out) : WellNested out := by
   simp only [transform, transformMarked, Option.map_eq_some_iff] at h
